@@ -687,6 +687,10 @@ def predicates(c, obs):
                 prev = o["d"]
                 blk_start = prev
             else:
+                if (o.get("addErr") or "").startswith("HANG"):
+                    fails.append(("C04", "validator-hang", "the block validator never returned a verdict for a block (signature verifier blocked): " + o["addErr"],
+                                  {"block": o["blk"]}))
+                    break
                 if c["mode"] == "chain":
                     inc = [c["blocks"][o["blk"]]["txs"][i] for i in (o.get("included") or [])]
                     allok = all(r_ok for r_ok in blk_all_ok)
